@@ -289,8 +289,8 @@ theorem agg_idempotent_partial (cs : List Req) (hf : fragB cs = true) (A A' : Ag
   obtain ⟨Gq, hmemq, hfGq⟩ := mem_withForests (fun r hr => (hall r hr).1) hq
   have hmem0 : (r, G) ∈ (withForests cs).reverse := by simpa using hmem
   have hG' : GInv (collsOf cs (fragB_spec hf).2) ((r, G) :: (withForests cs).reverse) A' :=
-    ginv_step hG (flatForest_spec hfG).1 ⟨r, hr, rfl⟩
-      (fun hn => absurd (List.mem_map.2 ⟨(r, G), hmem0, rfl⟩) hn) h'
+    (ginv_step hG (flatForest_spec hfG).1 ⟨r, hr, rfl⟩
+      (fun hn => absurd (List.mem_map.2 ⟨(r, G), hmem0, rfl⟩) hn) h').1
   have hsame : ∀ p, p ∈ (withForests cs).reverse ↔ p ∈ (r, G) :: (withForests cs).reverse := by
     intro p
     constructor
